@@ -53,19 +53,19 @@ const (
 	stressQuick  = 160
 )
 
-func (c18) NumCases(tier string) int {
-	m := 1
+func mult(tier string) int {
 	if tier == fw.Thorough {
-		m = 20
+		return 40
 	}
-	return (9*perKindQuick + stressQuick) * m
+	return 1
+}
+
+func (c18) NumCases(tier string) int {
+	return (9*perKindQuick + stressQuick) * mult(tier)
 }
 
 func (p c18) Run(c *fw.Ctx, idx int) fw.Result {
-	m := 1
-	if c.Tier == fw.Thorough {
-		m = 20
-	}
+	m := mult(c.Tier)
 	kind, sub := "stress", idx-9*perKindQuick*m
 	if idx < 9*perKindQuick*m {
 		kind, sub = fmt.Sprintf("K%d", idx/(perKindQuick*m)+1), idx%(perKindQuick*m)
